@@ -857,7 +857,8 @@ def classify_adapter(ck, cases, outs, label):
             continue
         terms.append(a_cq_case(c, o["out"]["res"]))
         idxs.append(i)
-    verdicts = ck.run_coq("C06", "judge_a", terms, shard=max(20, len(terms) // 16 + 1), tag=label)
+    # few shards: a case evaluates in ~0.1 s, the start-up of a coqc process costs more than 20 cases
+    verdicts = ck.run_coq("C06", "judge_a", terms, shard=max(25, len(terms) // 12 + 1), tag=label)
     dis = 0
     for i, v in zip(idxs, verdicts):
         if v == 0:
